@@ -10,7 +10,7 @@ import vlib, pageopslib as po
 META = {
     "level": "model_checking",
     "text": "TLC enumerates page counts x spans x all strictly increasing page-number lists (plus invalid lists) and merges of 1-5 documents "
-            "(create, append to existing/new, zip; with and without divider) of the Doc.tla split/merge operators; every case is replayed "
+            "(create, append to existing/new, zip; with and without divider; file and stream variants; four configurations) of the Doc.tla split/merge operators; every case is replayed "
             "with the real split/merge *File functions on raw-emitter documents with unique page markers and the outputs' file names and "
             "marker sequences are compared with the model; inputs must be byte-identical afterwards.",
     "note": "Trusted: Doc.tla split/merge operators; pdfcpu's reader + ExtractPageContent as the projection; rawpdf emitter; go1.26.8. "
@@ -22,12 +22,14 @@ META = {
 
 def fmt(m):
     c = m["case"]
+    cf = c.get("conf") or {}
+    tag = " api=%s conf[%s]" % (c.get("api"), ",".join(k for k in sorted(cf) if cf[k]) or "none")
     if c["kind"] == "merge":
         what = "merge %s divider=%s of documents with %s pages" % (c["mode"], c["divider"], [sum(len(g["pages"]) for g in t["groups"]) for t in c["trees"]])
     else:
         n = sum(len(g["pages"]) for g in c["trees"][0]["groups"])
         what = "%s of a %d-page document (span=%s, pageNrs=%s)" % (c["kind"], n, c["span"], c["nrs"])
-    return "%s: %s; got %s" % (what, m["what"], str(m.get("got"))[:500])
+    return "%s%s: %s; got %s" % (what, tag, m["what"], str(m.get("got"))[:500])
 
 
 def run(ctx):
@@ -50,13 +52,18 @@ def run(ctx):
         keys = po.report_by_key(ctx, mism, fmt)
         ev.cov(evaluations=n, distinct_nontrivial=len(nt), traces_validated_against_impl=n,
                rule="one case per initial state of Doc33.tla: (page count, span), (page count, page-number list) incl. invalid lists that must be "
-                    "refused, (mode, sizes of 1-5 documents, divider), (zip sizes); document trees come from DocTrees.tla (inherited attributes, "
+                    "refused, (mode, sizes of 1-5 documents, divider), (zip sizes), (page count, bookmark pages) for the split along bookmarks, (page count, "
+                    "selection) for ExtractPages; splits by span, bookmark splits, extraction and merges of <= 3 documents also run through the stream "
+                    "variants SplitRaw / MergeRaw / ExtractPages(digest) whose readers are read only after the call returned; cases are spread over the "
+                    "four configurations Doc!Confs (optimisation passes incl. duplicate content streams, object/xref streams on/off) and page contents "
+                    "of one document have equal length; document trees come from DocTrees.tla (inherited attributes, "
                     "intermediate nodes); non-trivial = distinct cases with at least two parts / two merged documents that matched; "
                     "thorough samples the page-number lists of 11-30 page documents with TLC's RandomSetOfSubsets (seeded)",
                exhaustive=bool(ctx.quick), kinds=t.get("kinds", {}), refusals_checked=t.get("refusals", 0), mismatch_keys=keys)
         ev.assume("expected parts / sequences come from spec/Doc.tla (SplitSpans, SplitAtSpans, MergeP, ZipP)",
                   "part files are identified by the names the API documents (<base>_<from>[-<thru>].pdf) and read in page order",
-                  "split along bookmarks is not covered here (the statement restricts the concatenation claim to span and page-number splits)",
+                  "split along bookmarks: one part per top-level bookmark (strictly increasing target pages), pages before the first bookmark belong to no part",
+                  "configuration switches never change what must come out",
                   "a divider page is a page without any content",
                   "generated documents only; harness built with go1.26.8")
     finally:
